@@ -60,6 +60,13 @@ func c14Complete(d *vc.C14) {
 	}
 	d.ReadAll()
 	for _, b := range d.Blobs {
+		d.ClassProbe(b.Idx)
+	}
+	if d.K == 1 {
+		d.PackProbe()
+		d.PackProbe()
+	}
+	for _, b := range d.Blobs {
 		d.OpenProbe(b.Idx)
 		d.StartWrite(b.Idx, 0, 0, 10)
 		d.Quiesce()
@@ -303,7 +310,7 @@ func TestVerifC14(t *testing.T) {
 				continue
 			}
 			c14Case(root, ci, tr)
-			if ci%6 == 0 && vw.CaseSelected(fmt.Sprintf("m%d", ci)) {
+			if ci%8 == 0 && vw.CaseSelected(fmt.Sprintf("m%d", ci)) {
 				c14CaseMulti(root, ci)
 			}
 		}
@@ -335,7 +342,7 @@ func TestVerifC14(t *testing.T) {
 		if vw.CaseSelected(fmt.Sprint(ci)) {
 			c14Case(root, ci, tr)
 		}
-		if ci%6 == 0 && vw.CaseSelected(fmt.Sprintf("m%d", ci)) {
+		if ci%8 == 0 && vw.CaseSelected(fmt.Sprintf("m%d", ci)) {
 			c14CaseMulti(root, ci)
 		}
 	}
